@@ -17,6 +17,12 @@ Modelling decisions (all on the trusted side, see DESIGN.md section 5):
   `x.reshape((l, l', …) + rest)` followed by a scan over the leading axis hands out the `l`
   consecutive chunks of `l'·…` rows (`chunks`); a pytree of arrays is the list of its leaves.
 * Python exceptions are values of `Err`.
+* The per-iteration output of a scan body is a value of an arbitrary type `Y` standing for the
+  whole output pytree; `nOut` is the number of array leaves of that pytree (`0` for a body
+  returning `None` / `()` as output, then `Y` carries no information, e.g. `Y = Unit`).
+  `tree_map(jnp.concatenate, out)` calls `jnp.concatenate` once per output leaf, so with `nOut = 0`
+  it is never called.  `innerNestedScan` / `nestedCheckpointScan` (no `nOut` argument) are the
+  instance "at least one output leaf" (`…Out_succ` in `DinoProofs/Properties/C14.lean`).
 State, carry, input and output types are arbitrary; step functions, filters, scan bodies are
 parameters.
 -/
@@ -98,12 +104,14 @@ def chunks (sz : Nat) : Nat → List X → List (List X)
   | n + 1, xs => xs.take sz :: chunks sz n (xs.drop sz)
 
 /-- `_inner_nested_scan(f, init, xs, lengths, scan_fn, checkpoint_fn)` for a single array `xs`
- (already reshaped: flat, row-major).
+ (already reshaped: flat, row-major) and a body whose output pytree has at least one array leaf
+ (for the general case, including bodies returning `None` as output, see `innerNestedScanOut`).
  * `lengths = []`: `lengths[0]` raises `IndexError`;
  * one length: `scan_fn(f, init, xs, lengths[0])` (`lax.scan` raises `ValueError` when `length`
    disagrees with the leading axis);
  * otherwise a scan of the checkpointed `sub_scans` over the `lengths[0]` slices, then
-   `jnp.concatenate` of the stacked outputs, which raises `ValueError` for an empty sequence. -/
+   `jnp.concatenate` of every stacked output leaf, which raises `ValueError` for an empty
+   sequence. -/
 def innerNestedScan (f : C → X → C × Y) : List Nat → C → List X → Except Err (C × List Y)
   | [], _, _ => .error .indexError
   | [l], c, xs => if xs.length = l then .ok (scan f c xs) else .error .valueError
@@ -112,6 +120,20 @@ def innerNestedScan (f : C → X → C × Y) : List Nat → C → List X → Exc
         (chunks (prod (l' :: ls)) l xs) with
     | .error e => .error e
     | .ok r => if r.2.isEmpty then .error .valueError else .ok (r.1, r.2.flatten)
+
+/-- `_inner_nested_scan` for a body whose output pytree has `nOut` array leaves:
+ `tree_map(jnp.concatenate, out)` calls `jnp.concatenate` once per leaf, so the `ValueError` for an
+ empty sequence (outer length `0`) arises only when there is at least one output leaf; a body
+ returning `None` as output (`nOut = 0`) gives `(carry, None)` for every outer length. -/
+def innerNestedScanOut (nOut : Nat) (f : C → X → C × Y) :
+    List Nat → C → List X → Except Err (C × List Y)
+  | [], _, _ => .error .indexError
+  | [l], c, xs => if xs.length = l then .ok (scan f c xs) else .error .valueError
+  | l :: l' :: ls, c, xs =>
+    match scanE (fun carry sub => innerNestedScanOut nOut f (l' :: ls) carry sub) c
+        (chunks (prod (l' :: ls)) l xs) with
+    | .error e => .error e
+    | .ok r => if nOut ≠ 0 ∧ r.2.isEmpty then .error .valueError else .ok (r.1, r.2.flatten)
 
 /-- `length is not None and length != math.prod(nested_lengths)` -/
 def lengthMismatch (length : Option Nat) (nestedLengths : List Nat) : Bool :=
@@ -127,6 +149,13 @@ def nestedCheckpointScan (f : C → X → C × Y) (init : C) (xs : List X) (leng
   if lengthMismatch length nestedLengths then .error .valueError
   else if xs.length ≠ prod nestedLengths then .error .typeError
   else innerNestedScan f nestedLengths init xs
+
+/-- `nested_checkpoint_scan` for a single array `xs` and a body with `nOut` output leaves -/
+def nestedCheckpointScanOut (nOut : Nat) (f : C → X → C × Y) (init : C) (xs : List X)
+    (length : Option Nat) (nestedLengths : List Nat) : Except Err (C × List Y) :=
+  if lengthMismatch length nestedLengths then .error .valueError
+  else if xs.length ≠ prod nestedLengths then .error .typeError
+  else innerNestedScanOut nOut f nestedLengths init xs
 
 /-- what the body receives at iteration `i` of a scan over a pytree: `tree_map(lambda a: a[i], xs)` -/
 def rowAt (leaves : List (List X)) (i : Nat) : List X := leaves.filterMap (·[i]?)
@@ -160,6 +189,27 @@ def nestedCheckpointScanTree (f : C → List X → C × Y) (init : C) (leaves : 
   if lengthMismatch length nestedLengths then .error .valueError
   else if leaves.any (fun a => a.length != prod nestedLengths) then .error .typeError
   else innerNestedScanTree f nestedLengths init leaves
+
+/-- `_inner_nested_scan` for a pytree `xs` and a body with `nOut` output leaves -/
+def innerNestedScanTreeOut (nOut : Nat) (f : C → List X → C × Y) :
+    List Nat → C → List (List X) → Except Err (C × List Y)
+  | [], _, _ => .error .indexError
+  | [l], c, leaves =>
+    if leaves.all (fun a => a.length == l) then .ok (scan f c (rows l leaves))
+    else .error .valueError
+  | l :: l' :: ls, c, leaves =>
+    match scanE (fun carry sub => innerNestedScanTreeOut nOut f (l' :: ls) carry sub) c
+        (chunksTree (prod (l' :: ls)) l leaves) with
+    | .error e => .error e
+    | .ok r => if nOut ≠ 0 ∧ r.2.isEmpty then .error .valueError else .ok (r.1, r.2.flatten)
+
+/-- `nested_checkpoint_scan` for a pytree `xs` and a body with `nOut` output leaves -/
+def nestedCheckpointScanTreeOut (nOut : Nat) (f : C → List X → C × Y) (init : C)
+    (leaves : List (List X)) (length : Option Nat) (nestedLengths : List Nat) :
+    Except Err (C × List Y) :=
+  if lengthMismatch length nestedLengths then .error .valueError
+  else if leaves.any (fun a => a.length != prod nestedLengths) then .error .typeError
+  else innerNestedScanTreeOut nOut f nestedLengths init leaves
 
 end scans
 
